@@ -276,6 +276,10 @@ func ThreadedValue(v ssa.Value) ssa.Value {
 		return a
 	}
 	threadedCache[ph] = nil
+	if a := getOrCreate(ph); a != nil {
+		threadedCache[ph] = a
+		return a
+	}
 	j := ph.Block()
 	iff, ok := lastIf(j)
 	if !ok || len(j.Succs) != 2 || ph.Referrers() == nil {
@@ -1346,4 +1350,63 @@ func AccumulatorFacts(ph *ssa.Phi, pol bool) ([]Fact, bool) {
 		return nil, false
 	}
 	return loop.IterationFacts(cuts), true
+}
+
+// getOrCreate recognises `e := m[k]; if e == nil { e = &T{…}; m[k] = e }`: the phi that merges the
+// looked-up entry with the freshly created one that has just been stored under the same key of the
+// same map denotes m[k] on both edges; the lookup is returned as its canonical form.
+func getOrCreate(ph *ssa.Phi) ssa.Value {
+	if len(ph.Edges) != 2 {
+		return nil
+	}
+	for li := 0; li < 2; li++ {
+		var lk *ssa.Lookup
+		switch x := ph.Edges[li].(type) {
+		case *ssa.Lookup:
+			lk = x
+		case *ssa.Extract:
+			if l2, ok := x.Tuple.(*ssa.Lookup); ok && x.Index == 0 {
+				lk = l2
+			}
+		}
+		if lk == nil {
+			continue
+		}
+		if _, isMap := lk.X.Type().Underlying().(*types.Map); !isMap {
+			continue
+		}
+		al, ok := ph.Edges[1-li].(*ssa.Alloc)
+		if !ok || !al.Heap || al.Referrers() == nil {
+			continue
+		}
+		// the created value is stored under the looked-up key of the looked-up map, in a block that
+		// dominates the edge it arrives on
+		stored := false
+		pred := ph.Block().Preds[1-li]
+		mt, kt := Term(lk.X), Term(lk.Index)
+		for _, r := range *al.Referrers() {
+			mu, ok := r.(*ssa.MapUpdate)
+			if !ok || mu.Value != ssa.Value(al) {
+				continue
+			}
+			if Term(mu.Map) == mt && Term(mu.Key) == kt && (mu.Block() == pred || mu.Block().Dominates(pred)) {
+				stored = true
+			}
+		}
+		if !stored {
+			continue
+		}
+		// nothing else is put under that map on the lookup's own edge
+		clean := true
+		lp := ph.Block().Preds[li]
+		for _, ins := range lp.Instrs {
+			if mu, ok := ins.(*ssa.MapUpdate); ok && Term(mu.Map) == mt {
+				clean = false
+			}
+		}
+		if clean {
+			return ph.Edges[li]
+		}
+	}
+	return nil
 }
